@@ -1033,6 +1033,10 @@ class Bag(DaskMethodsMixin):
             split_every = 8
         if split_every is False:
             split_every = self.npartitions
+        if split_every < 2 and self.npartitions > split_every:
+            # grouping fewer than two partitions never reduces their number:
+            # the loop below would not terminate
+            raise ValueError("split_every must be an integer >= 2")
 
         token = tokenize(self, perpartition, aggregate, split_every)
         a = f"{name or funcname(perpartition)}-part-{token}"
@@ -1353,6 +1357,8 @@ class Bag(DaskMethodsMixin):
             split_every = 8
         if split_every is False:
             split_every = self.npartitions
+        if split_every < 2 and self.npartitions > split_every:
+            raise ValueError("split_every must be an integer >= 2")
 
         token = tokenize(self, key, binop, initial, combine, combine_initial)
         a = f"foldby-a-{token}"
